@@ -70,6 +70,11 @@ CHECKS = {
          "Over a link that silently drops datagrams above M(t), every (M0, change step, M1) triple with M in {1200,1280,1400,1452,1500,9000} is run for configurations varying initial/min MTU, discovery, peer max_udp_payload_size, GSO, pad-to-MTU and certificate size, with stream and datagram workloads. Every emitted datagram is checked against current_mtu() read just before the poll_transmit call, probe bounds (upper bound, peer limit), the 1200-byte rules for client Initials / path validation / loss probes, GSO segment equality; the estimate may rise only to the size of a delivered probe and never below the floor; the transfer must still complete. MtuDiscovery component search (E1) is merged from /verif/comp.",
          "Link MTUs below the configured minimum are outside the premise; one open known finding (pad_to_mtu black-hole deadlock) is reported as KNOWN-FINDING.",
          "DESIGN.md#c13"),
+ "C14": ("E1+E3", "model_checking",
+         "explicit-state / exhaustive history search of the two token stores against reference models; exhaustive acceptance matrix on the real server endpoint",
+         "BloomTokenLog and TokenMemoryCache are driven through every call history up to a depth bound (all capacities incl. those forcing the hash-set-to-bloom conversion) against reference models: no nonce accepted twice, cache agrees exactly with an LRU-of-queues model and never hands a token out twice. Genuine Retry and NEW_TOKEN tokens obtained from real flows are presented unchanged, with every single bit flipped, every truncation, extension, every splice with a second genuine token, from the same address / same IP other port / other IP, at issue time / lifetime-1 s / lifetime+2 s, and a second time; the server's verdict (Incoming validated / may_retry, or stateless INVALID_TOKEN) must match the property. The client must reject server transport parameters whose CID-echo fields are absent, wrong or unexpectedly present, with and without a real Retry.",
+         "Real ring AEAD for tokens, model TLS for the handshake; one-second token time resolution, so the exact lifetime boundary is not probed; Retry integrity-tag alterations are under C04.",
+         "DESIGN.md#c14"),
  "C20": ("E3", "fault_enumeration",
          "exhaustive insertion-point enumeration with differential (replay / time-translated / extra-call) runs of real endpoints",
          "For a list of input histories (baselines incl. Retry, CID rotation, key update, rebinding, migration, and every single-deviation history) the run is repeated: identically (bit-identical trace incl. every poll_timeout value), with all Instants shifted by 1 s / 1 day / 10 years (identical relative trace), with a spurious handle_timeout or extra poll round inserted at EVERY step index on either side (identical packets, frames and events), and with all datagrams re-fed plus ten timeouts after both sides drained (no output). A timer may not fire more than 16 consecutive times at one instant.",
